@@ -28,13 +28,3 @@ void _ZdlPv(cv_i8 *p) { if (p) gh_frees++; free(p); }
 void _ZdaPv(cv_i8 *p) { if (p) gh_frees++; free(p); }
 void _ZdlPvm(cv_i8 *p, cv_i64 n) { if (p) gh_frees++; free(p); }
 void _ZdaPvm(cv_i8 *p, cv_i64 n) { if (p) gh_frees++; free(p); }
-
-/* llvm.memcpy of small trivially-copyable aggregates (clang copies e.g. suspend_point's inline handle array this way): copied word
- * by word AS POINTERS when the size is a small multiple of 8, so that coroutine handles keep their object identity in CBMC (the
- * byte-array copy of the C library model turns a copied handle into an opaque bit pattern and the next resume() through it forks over
- * every candidate - measured).  Bit-for-bit the same result as memcpy.  u_body.c (included after this file) is redirected here. */
-void cv_memcpy_words(cv_i8 *d, cv_i8 *s, cv_i64 n, cv_i1 vol) {
-#define CV_W(i) if (n > 8 * (i)) ((void **)d)[i] = ((void **)s)[i];
-  if (n % 8 == 0 && n <= 64) { CV_W(0) CV_W(1) CV_W(2) CV_W(3) CV_W(4) CV_W(5) CV_W(6) CV_W(7) }
-  else memcpy(d, s, n); }
-#define cv_llvm_memcpy_p0i8_p0i8_i64 cv_memcpy_words
